@@ -1,0 +1,84 @@
+//go:build verif
+
+package kafka
+
+import (
+	"fmt"
+	"strings"
+)
+
+// VerifC11Reads runs the batch-reading operations (part F of the c11 harness):
+//
+//	fetchread   ReadBatchWith, then the actions in order, stopping after the
+//	            first one that fails: a >= 0 is Batch.Read into make([]byte, a),
+//	            -1 is Batch.ReadMessage; then Batch.Close.
+//	connread    Conn.Read into make([]byte, acts[0]).
+//	connreadmsg Conn.ReadMessage(acts[0]).
+//
+// The Conn is seeked to off first.  The summary "<conn offset after>:[<act>;…]"
+// lists the executed actions (r,<n>,<buf[:n]>,<class> / m,<offset>,<key>,<value>,ok
+// / m,<class>); the error is the one of Close (of the Conn method for connread*).
+func VerifC11Reads(c *Conn, name string, off int64, acts []int64) (summary string, err error) {
+	cls := func(e error) string {
+		if e == nil {
+			return "ok"
+		}
+		return VerifC11Classify(e)
+	}
+	readAct := func(n int, buf []byte, e error) string {
+		k := n
+		if k < 0 {
+			k = 0
+		}
+		if k > len(buf) {
+			k = len(buf)
+		}
+		return "r," + c11I(int64(n)) + "," + c11B(buf[:k]) + "," + cls(e)
+	}
+	msgAct := func(m Message, e error) string {
+		if e != nil {
+			return "m," + cls(e)
+		}
+		return "m," + c11I(m.Offset) + "," + c11B(m.Key) + "," + c11B(m.Value) + ",ok"
+	}
+	if _, err := c.Seek(off, SeekAbsolute|SeekDontCheck); err != nil {
+		return "", err
+	}
+	var items []string
+	switch name {
+	case "fetchread":
+		b := c.ReadBatchWith(ReadBatchConfig{MinBytes: 1, MaxBytes: 1 << 20})
+		for _, a := range acts {
+			var aerr error
+			if a >= 0 {
+				buf := make([]byte, a)
+				n, e := b.Read(buf)
+				items, aerr = append(items, readAct(n, buf, e)), e
+			} else {
+				m, e := b.ReadMessage()
+				items, aerr = append(items, msgAct(m, e)), e
+			}
+			if aerr != nil {
+				break
+			}
+		}
+		err = b.Close()
+	case "connread":
+		if len(acts) != 1 || acts[0] < 1 {
+			return "", fmt.Errorf("verif: connread needs one capacity >= 1")
+		}
+		buf := make([]byte, acts[0])
+		n, e := c.Read(buf)
+		items, err = append(items, readAct(n, buf, e)), e
+	case "connreadmsg":
+		if len(acts) != 1 || acts[0] < 1 {
+			return "", fmt.Errorf("verif: connreadmsg needs one size >= 1")
+		}
+		m, e := c.ReadMessage(int(acts[0]))
+		items, err = append(items, msgAct(m, e)), e
+	default:
+		return "", fmt.Errorf("verif: unknown operation %q", name)
+	}
+	o, _ := c.Offset()
+	return c11I(o) + ":[" + strings.Join(items, ";") + "]", err
+}
